@@ -6,7 +6,7 @@ from contracts import interstitial_rt as I, vacancy_rt as V
 
 def main(tier):
     rep = Report('C12', tier)
-    n = len(catalogue.builders(tier, SEED))
+    n = len(catalogue.builders(tier, SEED)) + len(catalogue.interstitial_extras(tier, SEED))     # + BCC / FCC octahedral + tetrahedral networks
     runner.run(rep, 'Interstitial::contract', I.w_interstitial, [(i, tier, SEED, 'C12') for i in range(n)], 'onsager/OnsagerCalc.py::Interstitial.diffusivity')
 
     from vf import extract
